@@ -442,7 +442,7 @@ Definition ok_step (c : cfg) (s : state) (m : msg) (s' : state) (ev : list event
   ( (ebuf s' = ebuf s /\ pout s' = pout s)
     \/ (ebuf s' = ebuf s ++ [m] /\ (if is_allow (pout s) then pout s' = pbuf c m else pout s' = pout s))
     \/ (ebuf s' = [] /\ pout s' = Allow)
-    \/ (ebuf s' = [] /\ pout s' = pout s /\ (is_allow (pout s) = true \/ pool_ok_of m = false)) ).
+    \/ (ebuf s' = [] /\ pout s' = pout s /\ is_allow (pout s) = true) ).
 
 Lemma is_allow_true v : is_allow v = true -> v = Allow.
 Proof. destruct v; [reflexivity|discriminate|discriminate]. Qed.
